@@ -196,6 +196,37 @@ Fixpoint max_section_file_offset (secs : list pe_section) (mx : N) : res N :=
       max_section_file_offset rest (if mx <? e then e else mx)
   end.
 
+(* ---------------------------------------------------------------- module/pe/version_info.rs: the entry walks
+   read_version_info / read_string_file_info / read_string_table all have the shape
+       while offset < end { match read_child(mem, offset) { Some(length) => offset += length, None => break } }
+   (and `while let Some(length) = read_var_file_info(..) { offset += align32(length) }`).  The reader is abstract: it
+   returns the length field found at `offset`, attacker-controlled.  Gallina functions are total, so the walk is
+   written with fuel; None = fuel exhausted.  `walk_pinned` is the loop of the pinned tree, `walk_fixed` the loop
+   after fix ca28b21 (`Some(length) if length > 0`). *)
+Fixpoint walk_pinned (read : N -> option N) (fuel : nat) (offset end_ : N) : option N :=
+  match fuel with
+  | O => None
+  | S fuel' =>
+      if offset <? end_ then
+        match read offset with
+        | Some length => walk_pinned read fuel' (offset + length) end_
+        | None => Some offset
+        end
+      else Some offset
+  end.
+
+Fixpoint walk_fixed (read : N -> option N) (fuel : nat) (offset end_ : N) : option N :=
+  match fuel with
+  | O => None
+  | S fuel' =>
+      if offset <? end_ then
+        match read offset with
+        | Some length => if 0 <? length then walk_fixed read fuel' (offset + length) end_ else Some offset
+        | None => Some offset
+        end
+      else Some offset
+  end.
+
 (* ---------------------------------------------------------------- case term for the `kernel` cases of C09 *)
 Definition optN_eqb (a b : option N) : bool := opt_eqb N.eqb a b.
 
